@@ -128,6 +128,7 @@ Definition std_hrd (h : Z) : fmt :=
   UE (k_cpb_cnt h) 31 32 ;;
   U 4 8 (k_bit_rate_scale h) ;; U 4 8 (k_cpb_size_scale h) ;;
   Repeat (fun a => get a (k_cpb_cnt h) + 1) (fun i =>
+    Assert (fun _ => i <? 32) ;;       (* SchedSelIdx <= cpb_cnt_minus1 <= 31 *)
     UE (k_bit_rate_value h i) UE_MAX 32 ;; UE (k_cpb_size_value h i) UE_MAX 32 ;; Flag (k_cbr h i)) ;;
   U 5 8 (k_initial_cpb_len h) ;; U 5 8 (k_cpb_removal_len h) ;;
   U 5 8 (k_dpb_output_len h) ;; U 5 8 (k_time_offset_len h).
@@ -311,10 +312,10 @@ Definition go_h264_sps : fmt :=
      UE k_bd_luma UE_MAX 8 ;; UE k_bd_chroma UE_MAX 8 ;;
      Flag k_qpprime ;;
      Flag k_scaling_matrix ;;
-     When (isnt k_scaling_matrix 0)
+     When (is k_scaling_matrix 1)
        (Repeat (fun a => if is k_chroma 3 a then 12 else 8) (fun i =>
           Flag (k_scaling_list_present i) ;;
-          When (isnt (k_scaling_list_present i) 0)
+          When (is (k_scaling_list_present i) 1)
             (If (fun _ => i <? 6) (go_scan_list i 16) (go_scan_list i 64)))))
     (Set_ k_chroma (fun a => if is k_profile 183 a then 0 else 1)) ;;
   UE k_log2_max_frame_num UE_MAX 8 ;;
@@ -411,11 +412,15 @@ Definition go_h264_obs (data : list Z) : vobs := vobs_of (go_h264_decode data).
 Definition spec_h264_obs (a : env) : vobs :=
   Some (spec_width a, spec_height a, fps_bits (spec_fps a), spec_fixed a).
 
-(* semantic constraints of E.2.1 that are not ranges of a single descriptor:
-   num_units_in_tick > 0; the decoder doubles it in 32 bits, hence < 2^31 *)
+(* semantic constraints that are not ranges of a single descriptor (E.2.1): with timing
+   information num_units_in_tick > 0 (the decoder doubles it in 32 bits, hence < 2^31);
+   and two facts about the normalised record that the oracle re-checks on every case:
+   a field that is not coded is 0, a flag is 0 or 1 *)
 Definition h264_ranges (a : env) : bool :=
-  if get a k_timing_present =? 1
-  then (0 <? get a k_num_units_in_tick) && (get a k_num_units_in_tick <? 2 ^ 31) else true.
+  (if get a k_timing_present =? 1
+   then (0 <? get a k_num_units_in_tick) && (get a k_num_units_in_tick <? 2 ^ 31)
+   else get a k_num_units_in_tick =? 0) &&
+  ((get a k_sep_plane =? 0) || (get a k_sep_plane =? 1)).
 
 Fixpoint zlist_eqb (x y : list Z) : bool :=
   match x, y with
